@@ -143,4 +143,84 @@ theorem pkg_delete_confined (pkg : List String) (files newFiles : List String)
   intro f hf
   exact pkg_write_confined pkg f (h f (List.mem_filter.mp hf).1)
 
+
+/-! ### writer and reader agree on the document boundaries -/
+
+theorem startsSep_append (x t : List Char) (hx : x ≠ []) (h : startsSep x = none) : startsSep (x ++ '\n' :: t) = none := by
+  cases hs : startsSep (x ++ '\n' :: t) with
+  | none => rfl
+  | some r =>
+    exfalso
+    have e := startsSep_spec _ _ hs
+    match x, hx, h with
+    | [a], _, _ => simp at e
+    | [a, b], _, _ => simp at e
+    | [a, b, c], _, _ => simp at e
+    | a :: b :: c :: d :: y, _, h =>
+      simp at e
+      obtain ⟨e1, e2, e3, e4, _⟩ := e
+      subst e1 e2 e3 e4
+      simp [startsSep] at h
+
+theorem scan_body : ∀ (b : List Char) (f : Nat) (cur t : List Char), noSep b = true → f ≥ b.length →
+    scan f (b ++ '\n' :: t) cur = scan (f - b.length) ('\n' :: t) (b.reverse ++ cur) := by
+  intro b
+  induction b with
+  | nil => intro f cur t _ _; simp
+  | cons c r ih =>
+    intro f cur t hn hf
+    simp only [noSep, Bool.and_eq_true, Option.isNone_iff_eq_none] at hn
+    obtain ⟨f', rfl⟩ : ∃ f', f = f' + 1 := ⟨f - 1, by simp at hf; omega⟩
+    have hs : startsSep ((c :: r) ++ '\n' :: t) = none := startsSep_append (c :: r) t (by simp) hn.1
+    simp only [List.cons_append] at hs ⊢
+    simp only [scan, hs]
+    rw [ih f' (c :: cur) t hn.2 (by simp at hf; omega)]
+    simp
+
+theorem emit_length_pos (b : List Char) (r : List (List Char)) : (emit (b :: r)).length ≥ b.length + 1 := by
+  cases r with
+  | nil => simp [emit]
+  | cons c r => simp [emit]
+
+theorem scan_emit : ∀ (bs : List (List Char)) (f : Nat), bs ≠ [] → (∀ b ∈ bs, noSep b = true) → f ≥ (emit bs).length + 1 →
+    docsOf (scan f (emit bs) []) = readBack bs := by
+  intro bs
+  induction bs with
+  | nil => intro f h; exact absurd rfl h
+  | cons b r ih =>
+    intro f _ hall hf
+    have hb := hall b (by simp)
+    cases r with
+    | nil =>
+      simp only [emit, readBack] at hf ⊢
+      rw [scan_body b f [] [] hb (by simp at hf; omega)]
+      obtain ⟨n, hn⟩ : ∃ n, f - b.length = n + 1 := ⟨f - b.length - 1, by simp at hf; omega⟩
+      rw [hn]
+      have hs : startsSep ['\n'] = none := by decide
+      simp only [scan, hs, List.append_nil]
+      cases n with
+      | zero => simp [scan, docsOf]
+      | succ m => simp [scan, docsOf]
+    | cons c r' =>
+      simp only [emit, readBack] at hf ⊢
+      rw [scan_body b f [] _ hb (by simp at hf; omega)]
+      obtain ⟨n, hn⟩ : ∃ n, f - b.length = n + 1 := ⟨f - b.length - 1, by simp at hf; omega⟩
+      rw [hn]
+      have hs : startsSep ('\n' :: '-' :: '-' :: '-' :: '\n' :: emit (c :: r')) = some ('\n' :: emit (c :: r')) := rfl
+      have hu : untilNewline ('\n' :: emit (c :: r')) = some ([], emit (c :: r')) := rfl
+      simp only [scan, hs, hu, docsOf, List.append_nil, List.reverse_reverse]
+      congr 1
+      exact ih n (by simp) (fun x hx => hall x (by simp [hx])) (by simp at hf; omega)
+
+/-- **what the writer emits, the reader splits back into the same documents**: texts that contain no `\n---` line start,
+    written one after the other with `---` lines in between, are split by the reader at exactly these lines — same number
+    of documents, same order, same text (the last one keeps its final line break) -/
+theorem emit_read_back (bs : List (List Char)) (hne : bs ≠ []) (hall : ∀ b ∈ bs, noSep b = true) :
+    docsOf (pieces (emit bs)) = readBack bs :=
+  scan_emit bs _ hne hall (by simp)
+
+example : docsOf (pieces (emit ["a: 1".toList, "b: |+\n  x\n\n".toList, "c: 3".toList]))
+    = ["a: 1".toList, "b: |+\n  x\n\n".toList, "c: 3\n".toList] := by decide
+
+
 end Kust.C13
